@@ -43,6 +43,7 @@ type Step struct {
 	Recurse  bool     `json:"recurse,omitempty"`
 	Create   bool     `json:"sendcreate,omitempty"`
 	Async    bool     `json:"async,omitempty"`
+	Nowait   bool     `json:"nowait,omitempty"` // do not wait for quiescence: the next step races with this one
 	Ch       string   `json:"ch,omitempty"`
 	K        int      `json:"k,omitempty"`
 	Pat      []Step   `json:"pat,omitempty"`
